@@ -24,7 +24,7 @@ Next == /\ l <= Len(Rec)
            THEN cfg' = r.cfg /\ w' = r.w /\ S' = S0 /\ H' = H0 /\ adv' = FALSE
            ELSE /\ UNCHANGED <<cfg, w>>
                 /\ adv' = (r.t = 1)
-                /\ H' = HNext(H, StepOf(r), Res(r))
+                /\ H' = HNext(H, StepOf(r), Res(r), RangeOf(r.mechs))
                 \* follow the implementation-shaped state only while it explains the trace
                 /\ S' = L2Out(r).S
 Sig(r) == IF Res(r) = "success" /\ ~Valid(w, r.t = 1) THEN "success-outside-window-" \o w
